@@ -10,7 +10,7 @@
     already due. *)
 From Coq Require Import List Arith Bool Lia.
 From CM Require Import Maintain.Model Maintain.Spec Maintain.Base Maintain.Inv Maintain.Proofs
-  Maintain.SpecSound.
+  Maintain.SpecSound Maintain.XModel Maintain.XProofs Maintain.XSound.
 From CM Require Maintain.Check.
 Import ListNotations.
 
@@ -250,7 +250,102 @@ Theorem C05_monitor_sound : forall od idue k s h pend,
 Proof. exact spec_run_sound. Qed.
 Print Assumptions C05_monitor_sound.
 
-(* XAGREE *)
+(** ** "... keeps being served as long as it has not been revoked" — revocation
+    ([Maintain.XModel]): the cache entry of a certificate carries its OCSP status; [Revoke i]
+    marks entry [i] Revoked, [OcspPass ord] is one run of updateOCSPStaples (every managed
+    Revoked entry goes through forceRenew, in the order [ord] — any order). Histories are lists
+    of [Core e | Revoke i | OcspPass ord]; [XWF] = [WF] of the core state plus "a status belongs
+    to a cache entry". The theorems are for an issuer whose certificates are not already due
+    ([idue = false], as in [C05_renews_once]). *)
+Theorem C05_revocation_wf_invariant : forall od idue x h,
+  idue = false -> XWF od x -> XWF od (xrun od idue x h).
+Proof. exact XWF_xrun. Qed.
+Print Assumptions C05_revocation_wf_invariant.
+
+(** a certificate outside its renewal window (or unmanaged, or on-demand) that is never revoked
+    stays in the cache, answering for all its names, through any history that also contains
+    revocations of other certificates and OCSP passes *)
+Theorem C05_not_due_unrevoked_untouched : forall od idue x h c,
+  idue = false -> XWF od x -> In c (cache (core x)) -> eligible od c = false -> flagged (rev x) c = false ->
+  Forall (fun e => e <> Revoke (cid c)) h ->
+  In c (cache (core (xrun od idue x h))) /\
+  (forall m, In m (cnames c) -> In c (resolve m (cache (core (xrun od idue x h))))).
+Proof. exact unrevoked_not_due_untouched. Qed.
+Print Assumptions C05_not_due_unrevoked_untouched.
+
+(** the failed-renewal clause with its proviso: while the issuer fails for its name and no other
+    instance renews it, a certificate that is not revoked stays cached, stored and served through
+    any history of passes, jobs, retries, manage calls, revocations of others and OCSP passes *)
+Theorem C05_failed_renewal_keeps_serving_unless_revoked : forall od idue x h c,
+  idue = false -> XWF od x -> In c (cache (core x)) -> stored (store (core x)) (chead c) = Some c ->
+  is_failing (core x) (chead c) = true -> flagged (rev x) c = false ->
+  Forall (fun e => ~ xtouches c e) h ->
+  let x' := xrun od idue x h in
+  In c (cache (core x')) /\ stored (store (core x')) (chead c) = Some c /\
+  cnt (issued (core x')) (chead c) = cnt (issued (core x)) (chead c) /\
+  (forall m, In m (cnames c) -> In c (resolve m (cache (core x')))).
+Proof. exact failed_renewal_keeps_serving_unless_revoked. Qed.
+Print Assumptions C05_failed_renewal_keeps_serving_unless_revoked.
+
+(** ... and the proviso bites: a revoked (managed) certificate is not in the cache after the next
+    OCSP pass, in whatever order the pass works — if the issuer fails for its name (or nothing is
+    stored) it is removed, nothing is issued and storage is left alone; otherwise a new
+    certificate is issued (even if the stored one is not due: the renewal is forced), stored,
+    cached and answers for the name *)
+Theorem C05_revoked_replaced_or_removed : forall od idue x ord c,
+  idue = false -> XWF od x -> In c (cache (core x)) -> cman c = true -> flagged (rev x) c = true ->
+  lock_held (jobs (core x)) (chead c) = false ->
+  let s := core x in let x' := xstep od idue x (OcspPass ord) in let s' := core x' in let n := chead c in
+  ~ In c (cache s') /\ flagged (rev x') c = false /\
+  (is_failing s n = true \/ stored (store s) n = None ->
+     stored (store s') n = stored (store s) n /\ cnt (issued s') n = cnt (issued s) n) /\
+  (is_failing s n = false -> stored (store s) n <> None ->
+     exists N, stored (store s') n = Some N /\ In N (cache s') /\ next s <= cid N /\ cnames N = [n] /\
+               cnt (issued s) n < cnt (issued s') n /\ In N (resolve n (cache s'))).
+Proof. exact revoked_replaced_or_removed. Qed.
+Print Assumptions C05_revoked_replaced_or_removed.
+
+(** an OCSP pass touches nothing else: every certificate that is not (managed and) revoked stays
+    cached; jobs and passes are left alone; the issuer is contacted, and storage written, only
+    for the first names of revoked certificates *)
+Theorem C05_ocsp_pass_keeps_unrevoked : forall od idue x ord c,
+  XWF od x -> In c (cache (core x)) -> cman c && flagged (rev x) c = false ->
+  In c (cache (core (xstep od idue x (OcspPass ord)))).
+Proof. exact ocsp_pass_keeps_unrevoked. Qed.
+Print Assumptions C05_ocsp_pass_keeps_unrevoked.
+
+Theorem C05_ocsp_pass_only_for_revoked : forall od idue x ord m,
+  idue = false -> XWF od x ->
+  let s := core x in let s' := core (xstep od idue x (OcspPass ord)) in
+  jobs s' = jobs s /\ passes s' = passes s /\ lasterr s' = false /\
+  ((cnt (issued s') m = cnt (issued s) m /\ cnt (failed s') m = cnt (failed s) m /\
+    stored (store s') m = stored (store s) m) \/
+   exists r, In r (cache s) /\ cman r = true /\ flagged (rev x) r = true /\ chead r = m).
+Proof. exact ocsp_pass_only_for_revoked. Qed.
+Print Assumptions C05_ocsp_pass_only_for_revoked.
+
+(** the extended monitor ([XModel.xspec_step]: the clauses of [Spec.spec_step] for core events plus
+    "a status disappears only with its cache entry"; for an OCSP pass: unrevoked certificates
+    kept, revoked ones gone, Issue only for their names, storage only changed by such an
+    issuance, additions are certificates issued in the pass, where nothing failed the new
+    certificate is stored and served, a failed forced renewal leaves storage alone) holds of the
+    extended model's observations along every history *)
+Theorem C05_revocation_monitor_sound : forall od idue k x h pend,
+  idue = false -> XWF od x -> Bounded k (core x) -> Forall (xev_ok k) h -> pend_equiv pend (passes (core x)) ->
+  xspec_run od idue k pend (xobserve k x) (xtrace od idue k x h) = true.
+Proof. exact xspec_run_sound. Qed.
+Print Assumptions C05_revocation_monitor_sound.
+
+(** a correspondence case on which the implementation's observations equal the model's
+    ([Check.model_agrees]) satisfies the monitor: "agrees with the model" and "violates the
+    specification" exclude each other (for the issuer the revocation theorems assume; with
+    [idue = true] the generator produces no OCSP pass, [Check.case_ok]) *)
+Theorem C05_agreeing_case_satisfies_spec : forall c : Check.case,
+  Check.c_idue c = false -> Check.model_agrees c = true ->
+  Forall (xev_ok (Check.c_k c)) (map fst (Check.c_hist c)) ->
+  xspec_run (Check.od_of c) (Check.c_idue c) (Check.c_k c) [] (Check.c_obs0 c) (Check.c_hist c) = true.
+Proof. exact agreeing_case_satisfies_spec. Qed.
+Print Assumptions C05_agreeing_case_satisfies_spec.
 
 (** ** Non-vacuity: concrete well-formed states meeting the hypotheses *)
 Definition ex_od (n : name) : bool := n =? 2.
@@ -345,4 +440,52 @@ Proof.
   destruct h1 as [|e3 h1]; [vm_compute; reflexivity|]. injection E as <- E.
   destruct h1 as [|e4 h1]; [vm_compute; reflexivity|]. injection E as <- E.
   destruct h1 as [|e5 h1]; [vm_compute; reflexivity|]. discriminate.
+Qed.
+
+(** hypotheses of the revocation theorems: [c1] (fresh, stored, served) is revoked; the issuer
+    works for name 1: the OCSP pass replaces it; with a failing issuer it is removed; the
+    unrevoked [c0] (due, issuer failing for name 0) stays through passes, retries, a revocation
+    of another certificate and OCSP passes *)
+Definition ex_x (fl : list name) (rv : list nat) : xstate := XState (ex_stale fl) rv.
+Example ex_x_wf : forall fl, XWF ex_od (ex_x fl [1]).
+Proof.
+  intros fl. constructor; cbn [core rev ex_x].
+  - apply ex_stale_wf.
+  - intros i [<-|[]]. reflexivity.
+  - repeat constructor. intros [].
+Qed.
+Example ex_revoked_replaced :
+  In c1 (cache (core (ex_x [] [1]))) /\ cman c1 = true /\ flagged (rev (ex_x [] [1])) c1 = true /\
+  lock_held (jobs (core (ex_x [] [1]))) (chead c1) = false /\
+  is_failing (core (ex_x [] [1])) (chead c1) = false /\ stored (store (core (ex_x [] [1]))) (chead c1) = Some c1 /\
+  let x' := xstep ex_od false (ex_x [] [1]) (OcspPass [1]) in
+  cache (core x') = [c0; c2; c3; Cert 5 1 [] false true] /\ issued (core x') = [1] /\ rev x' = [].
+Proof. vm_compute. intuition. Qed.
+Example ex_revoked_removed :
+  is_failing (core (ex_x [1] [1])) (chead c1) = true /\
+  let x' := xstep ex_od false (ex_x [1] [1]) (OcspPass []) in
+  cache (core x') = [c0; c2; c3] /\ issued (core x') = [] /\ failed (core x') = [1] /\
+  stored (store (core x')) 1 = Some c1.
+Proof. vm_compute. intuition. Qed.
+Example ex_unrevoked_keeps_serving :
+  let h := [Core (PassScan 1); Core (PassAct 1); Core (JobStep 0 0); Core (JobStep 0 0); OcspPass [1];
+            Revoke 2; OcspPass [2]; Core (JobStep 0 0); Core (PassScan 2); Core (PassAct 2)] in
+  In c0 (cache (core (ex_x [0] [1]))) /\ stored (store (core (ex_x [0] [1]))) (chead c0) = Some c0 /\
+  is_failing (core (ex_x [0] [1])) (chead c0) = true /\ flagged (rev (ex_x [0] [1])) c0 = false /\
+  Forall (fun e => ~ xtouches c0 e) h /\
+  cache (core (xrun ex_od false (ex_x [0] [1]) h)) = [c0; c3; Cert 5 1 [] false true; Cert 6 2 [] false true].
+Proof.
+  cbn zeta. repeat split; try (vm_compute; intuition; fail).
+  repeat constructor; cbn; try tauto; try discriminate; intros [[r H]|H]; discriminate.
+Qed.
+Example ex_x_monitor :
+  let h := [Core (PassScan 1); Revoke 1; Revoke 0; Core (PassAct 1); OcspPass [1; 0]; Core (JobStep 0 0);
+            Core (JobStep 0 0); Revoke 3; OcspPass []; Core (JobStep 0 0)] in
+  Forall (xev_ok 4) h /\
+  xspec_run ex_od false 4 [] (xobserve 4 (ex_x [] [])) (xtrace ex_od false 4 (ex_x [] []) h) = true /\
+  map cid (cache (core (xrun ex_od false (ex_x [] []) h))) = [2; 3; 5; 6].
+Proof.
+  cbn zeta. split.
+  - repeat (apply Forall_cons; [cbn; try exact I; try lia |]). apply Forall_nil.
+  - split; vm_compute; reflexivity.
 Qed.
